@@ -360,11 +360,10 @@ partial def loop (h : IO.FS.Stream) (s : DS) : IO Unit := do
     | some c, some ks =>
       let n0 := c.cs.heap.trace.length
       let args := rest.filter (fun t => !t.startsWith "K=")
-      let k1 : OwnC.KAns := ks.headD .eagain
       let res : Option (OwnC.CS × OwnC.CErr) :=
         match kind, args with
-        | "write", [n] => n.toNat?.map fun n => OwnC.write capOf c.maxWB c.cs n k1
-        | "writev", [ns] => ((ns.splitOn ",").mapM (fun (t : String) => t.toNat?)).map fun bs => OwnC.writev capOf c.maxWB c.cs bs k1
+        | "write", [n] => n.toNat?.map fun n => OwnC.write capOf c.maxWB c.cs n ks
+        | "writev", [ns] => ((ns.splitOn ",").mapM (fun (t : String) => t.toNat?)).map fun bs => OwnC.writev capOf c.maxWB c.cs bs ks
         | "sendfile", [off, ln] =>
           match off.toNat?, ln.toNat? with
           | some off, some ln =>
